@@ -186,12 +186,31 @@ SetTimes(T, v, s, withDates) ==
      ELSE [i \in 1 .. Len(v[g]) |-> SetTimes(r.type, v[g][i], s + i, withDates)]]
 TimeObjs(withDates) == UNION {{Obj(Kinds[t], SetTimes(Kinds[t], Gen(Kinds[t], s + t, 2, Pat("all", 0), TRUE), s, withDates)) : t \in 2 .. 7} : s \in 0 .. 1}
 TimeDocs == {OsmDocOf(NoHdr, <<o>>) : o \in TimeObjs(FALSE)}
+\* Member annotation subsets: every subset of the optional member fields (version, changeset, lat, lon, orientation, nested
+\* nodes) present on the members of a relation, independently - incl. orientation only, with both orientation values - with plain
+\* and pool roles.  (All members of one relation carry the same subset; the base fields type / ref / role are always there.)
+MemberOpt == {"Version", "ChangesetID", "Lat", "Lon", "Orientation", "Nodes"}
+MemberWith(m, j, role) ==
+  [g \in {"Type", "Ref", "Role"} \cup m |->
+     CASE g = "Type" -> <<"=way", "=node", "=relation">>[j]
+       [] g = "Ref" -> IdSym(j)
+       [] g = "Role" -> role
+       [] g = "Version" -> IdSym(j + 3)
+       [] g = "ChangesetID" -> IdSym(j + 5)
+       [] g = "Lat" -> "f" \o ToString(j)
+       [] g = "Lon" -> "f" \o ToString(j + 8)
+       [] g = "Orientation" -> <<"#1", "#-1", "#1">>[j]
+       [] g = "Nodes" -> <<[ID |-> IdSym(j + 6)]>>]
+MaskRelations ==
+  {Obj("Relation", [ID |-> "i4", Members |-> <<MemberWith(m, 1, r[1]), MemberWith(m, 2, r[2]), MemberWith(m, 3, r[1])>>]) :
+      m \in SUBSET MemberOpt, r \in {<<"=outer", "s0">>, <<"s2", "=inner ring">>}}
+MaskDocs == {OsmDocOf(NoHdr, <<o>>) : o \in MaskRelations}
 \* augmented-diff actions whose old / new parts are full documents (bounds, every element kind, changesets, notes, users)
 FullPartDiffDocs ==
   {DiffDocOf(<<Act("=modify", << >>, << AllKindsDoc(1) >>, << AllKindsDoc(4) >>)>>, << >>),
    DiffDocOf(<<Act("=delete", << >>, << [i \in 1 .. 7 |-> AllKindsDoc(2)[Scrambled[i]]] >>, << >>),
                Act("=create", <<Full("Way", 3)>>, << >>, << <<Full("Bounds", 5), Small("Changeset", 6), Small("Note", 7), Small("User", 8)>> >>)>>, << >>)}
-Docs == OsmDocs \cup ChangeDocs \cup DiffDocs \cup ListPairDocs \cup SharedFieldDocs \cup CoordDocs \cup FullPartDiffDocs \cup TimeDocs
+Docs == OsmDocs \cup ChangeDocs \cup DiffDocs \cup ListPairDocs \cup SharedFieldDocs \cup CoordDocs \cup FullPartDiffDocs \cup TimeDocs \cup MaskDocs
 DocCase(d) == [doc |-> d, tree |-> DocTree(d), unk |-> <<UnknownAttr, UnknownElem>>]
 
 (* ---- Go-shaped values (C04 / C05) ---- *)
@@ -199,7 +218,7 @@ DocCase(d) == [doc |-> d, tree |-> DocTree(d), unk |-> <<UnknownAttr, UnknownEle
 ValueOf(d) == ExpectedWhole(d)
 \* standalone objects, containers holding every pattern of every kind, and containers decoded from the documents above
 OSMWith(hdr, items) == WholeOSM(hdr, items)
-Standalone == UNION {Objs(Kinds[i]) : i \in 1 .. 7}
+Standalone == UNION {Objs(Kinds[i]) : i \in 1 .. 7} \cup MaskRelations
 ContainerValues ==
   {Obj(d.T, ValueOf(d)) : d \in Docs}
   \* every subset of create / modify / delete present, one of them empty, with and without bounds
@@ -308,7 +327,8 @@ JsonTimeCases ==
   {[kind |-> "rt", root |-> o.T, v |-> o.f] : o \in TimeObjs(TRUE)}
   \cup {[kind |-> "rt", root |-> "OSM", v |-> WholeOSM(NoHdr, <<o>>)] : o \in TimeObjs(TRUE)}
   \cup {JDoc(Vers[3], NoHdr, <<o>>) : o \in TimeObjs(TRUE)}
-JsonCases == RtCases \cup JsonDocCases \cup JsonCtlCases \cup JsonIdCases \cup JsonNestedCases \cup JsonAfterRejectCases \cup JsonTimeCases
+JsonMaskDocCases == {JDoc(Vers[3], NoHdr, <<o>>) : o \in MaskRelations}
+JsonCases == JsonMaskDocCases \cup RtCases \cup JsonDocCases \cup JsonCtlCases \cup JsonIdCases \cup JsonNestedCases \cup JsonAfterRejectCases \cup JsonTimeCases
 
 VARIABLE case
 DInit == case \in {DocCase(d) : d \in Docs}
